@@ -136,6 +136,9 @@ class CallMixin:
         if key == self.top_fi.key and self.depth == 0 and fr is None:
             use_contract = False
         if use_contract:
+            if any(isinstance(a, OpaqueV) and a.tag == 'starargs' for a in args):
+                raise Unsupported(f'{self.eng.cur_key}:{getattr(n, "lineno", "?")}: star-expansion of a sequence of symbolic length in a call of {key}, '
+                                  f'which is under contract: the arguments cannot be matched against the contract parameters')
             return self.apply_contract(self.pick_contract(cs, fi, args, kwargs, n, fr), fi, args, kwargs, n, fr)
         if not (force_inline or fi.kind == 'nested' or key in self.eng.registry.inline_keys or key in self.contract.inline
                 or (fr is None) or _returns_constant(fi)):
